@@ -20,7 +20,7 @@ RULE = ('strata: A = every grammatical token sequence over {(,),and,or,not,check
         'leaves numbered left to right, and again with only one or two distinct leaves repeated; three leaf families (role checks, attribute checks, attribute names that begin with the letters of a keyword); B = random ASTs (<= ~60 tokens, leaf reuse, constants) each in '
         'several lexical variants (keyword case, ASCII whitespace, glued parentheses, redundant groups); '
         'D = deeply nested legal expressions (1-40 chained not, alternating and/or/not towers of depth 2-25, within ~60 tokens); C = every list-of-lists shape (outer<=3, inner<=3) over {leaf, other leaf, @, !, bare string, '
-        'empty entry}; K = constant rules; every seventh sentence of A is parsed immediately after a malformed rule (lone operator, unbalanced parenthesis, dangling operator ...) in the same thread; F = slice of A/B carried through real JSON and YAML policy files; every eleventh sentence of A is, after being decided, registered as the default of a policy with a deprecated predecessor in another enforcer (merged when enforce_new_defaults is off) and then parsed and decided again: the text must mean the same; O = two threads each load and decide a rule - or both evaluate ONE parsed rule with wide and/or nodes - at the same time (second one runs at sampled line boundaries of the first, deterministic scheduler): results must be those of running them one after the other. '
+        'empty entry}; K = constant rules; every seventh sentence of A is parsed immediately after a malformed rule (lone operator, unbalanced parenthesis, dangling operator ...) in the same thread; F = slice of A/B carried through real JSON and YAML policy files; every eleventh sentence of A is, after being decided, registered as the default of a policy with a deprecated predecessor in another enforcer (merged when enforce_new_defaults is off) and then parsed and decided again: the text must mean the same; stratum first-use: in a fresh interpreter per schedule two threads load and decide one rule each as the very first use of the library (first one pre-empted at the line boundaries that exist on first use only, and at sampled others); O = two threads each load and decide a rule - or both evaluate ONE parsed rule with wide and/or nodes - at the same time (second one runs at sampled line boundaries of the first, deterministic scheduler): results must be those of running them one after the other. '
         'Each case is decided under all 2^k role (or attribute) assignments. A case is non-trivial when its '
         'reference truth table is not constant; distinct = distinct rule value.')
 ASSUMPTIONS = [
@@ -34,8 +34,8 @@ LEVEL_TEXT = ('Every grammatical sentence up to 11 (thorough: 15) tokens and eve
               'bound, sampled above it - the right level for an infinite language whose failure modes are shape-specific.')
 LEVEL_NOTE = ('trusted: the reference evaluator/recogniser in pv/gen/expr.py; leaf checks (role:, attribute) behave as '
               'C04/C05 state; only ASCII whitespace is generated')
-PLAN = {'quick': dict(shards=4, wall=60), 'thorough': dict(shards=16, wall=420)}
-MIN = {'overlapping_evaluations': 200, 'shared_tree_overlaps': 4, 'reparsed_after_use_as_deprecated_default': 100, 'deep_cases': 20, 'parsed_after_malformed_rule': 100, 'sentences_with_repeated_leaves': 500, 'evaluations': 200, 'decisions': 2000, 'allow_decisions': 100, 'deny_decisions': 100}
+PLAN = {'quick': dict(shards=4, wall=120), 'thorough': dict(shards=16, wall=420)}
+MIN = {'first_use_schedules': 12, 'overlapping_evaluations': 200, 'shared_tree_overlaps': 4, 'reparsed_after_use_as_deprecated_default': 100, 'deep_cases': 20, 'parsed_after_malformed_rule': 100, 'sentences_with_repeated_leaves': 500, 'evaluations': 200, 'decisions': 2000, 'allow_decisions': 100, 'deny_decisions': 100}
 ANCHORS = ['oslo_policy.policy:Enforcer.enforce', 'oslo_policy._parser:parse_rule',
            'oslo_policy._parser:_parse_tokenize', 'oslo_policy._parser:_parse_list_rule',
            'oslo_policy._parser:ParseState._wrap_check', 'oslo_policy._parser:ParseState._make_and_expr',
@@ -393,6 +393,47 @@ def check_overlap(ctx, real, case):
                 ctx.violation('decision-mismatch', case, {'rule': op['text'], 'expected': op['want'], 'observed': got})
 
 
+# -- first use of the library in a process, by two threads at once ----------------
+FIRST_USE = {'quick': dict(sampled=3, cap=14), 'thorough': dict(sampled=30, cap=120)}
+
+
+def first_use_pair(ctx):
+    rnd = ctx.sub_rnd('FU', ctx.tier, ctx.shard)
+    pair, want = [], []
+    from pv.mon import firstuse
+    for _ in range(2):
+        ast = expr.random_ast(rnd, rnd.randint(1, 3), 3)
+        while expr.size(ast) > 16:
+            ast = expr.random_ast(rnd, rnd.randint(1, 2), 3)
+        pair.append(expr.spell(expr.to_tokens(ast, lambda i: 'role:' + 'abc'[i])))
+        want.append([expr.ev(ast, [x in creds['roles'] for x in 'abc']) for creds, target in firstuse.WORLDS])
+    return pair, want
+
+
+def judge_first_use(ctx, case, base, got, want=None):
+    if want is None:
+        want = case['want']
+    for n, w in zip('AB', want):
+        first = got['first'].get(n)
+        decisions = first[1] if isinstance(first, list) else first
+        if decisions != w:
+            ctx.violation('decision-mismatch' if isinstance(first, list) else 'exception-on-first-use', dict(case, want=want),
+                          {'rule': case['pair']['AB'.index(n)], 'expected': w, 'observed': decisions,
+                           'situation': 'first use of the library in this process, two threads at once',
+                           'a_preempted_at_boundary': case['k'], 'a_preempted_at': got['stopped_at'].get('A'),
+                           'one_after_the_other': base['first'].get(n)})
+            return
+
+
+def run_first_use(ctx):
+    from pv.mon import firstuse
+    ctx.stratum('first-use', exhaustive=False)
+    pair, want = first_use_pair(ctx)
+    b = FIRST_USE[ctx.tier]
+    firstuse.schedules(ctx, pair, lambda c, case, base, got: judge_first_use(c, case, base, got, want), b['sampled'], b['cap'],
+                       parity=ctx.shard % 2 if ctx.tier == 'quick' else None)
+
+
 # -- workload -----------------------------------------------------------------
 def cases(ctx):
     b = BOUNDS[ctx.tier]
@@ -476,6 +517,7 @@ def run(ctx):
             check_overlap(ctx, real, gen_overlap(ctx, i))
     finally:
         sched.uninstall()
+    run_first_use(ctx)
     for k, v in contracts.EVALS.items():
         ctx.count('contract_evals.' + k, v)
 
@@ -485,6 +527,9 @@ def replay(ctx, case):
     contracts.parse_rule_returns_check()
     real = Real()
     case = dict(case)
+    if case.get('first_use'):
+        from pv.mon import firstuse
+        return firstuse.replay_one(ctx, case, judge_first_use)
     if case.get('s') == 'O':
         return check_overlap(ctx, real, case)
     if case.get('s') == 'B' and 'text' in case:
